@@ -284,6 +284,8 @@ def run_property(prop_id, tier="quick", root=None, replay=None, quiet=False,
             if rc == 1:
                 return rc, ctx
         if not quiet:
+            if os.environ.get("SA_TRACEBACK"):
+                traceback.print_exc()
             print(f"ANALYSIS-ERROR property={prop_id} {e}")
         if write_evidence:
             write_ev(ctx, {}, len(ctx.obligations), 0, [], t0, error=str(e))
